@@ -22,7 +22,15 @@ type LimitedValve struct {
 
 type UnlimitedValve struct{}
 
+// maxValveRate is the largest rate (bytes per second) a token bucket is made with. A bucket refills by
+// ticks*quantum in int64 arithmetic, which is about rate*seconds since it was last looked at: with a rate like
+// 1e15 ("no limit") the product wraps round after a few idle hours, with one near MaxInt64 the refill wraps at once,
+// and the wait computed from the negative balance holds the user for up to hours. 16 GiB/s is beyond what a
+// session can carry, so larger values limit nothing, and at this rate the arithmetic is exact for years of uptime
+const maxValveRate = 1 << 34
+
 func MakeValve(rxRate, txRate int64) *LimitedValve {
+	rxRate, txRate = min(rxRate, maxValveRate), min(txRate, maxValveRate)
 	var rx, tx int64
 	v := &LimitedValve{
 		rxtb: ratelimit.NewBucketWithRate(float64(rxRate), rxRate),
